@@ -37,6 +37,9 @@ type FifoBuffer[T any] struct {
 	cond sync.Cond
 
 	buffer []T
+
+	// set by ReleaseGoroutines; once set, Pop functions do not block on an empty buffer anymore
+	released bool
 }
 
 func NewFifoBuffer[T any]() (result FifoBuffer[T]) {
@@ -60,6 +63,10 @@ func (this *FifoBuffer[T]) PopMultiple(numberToPop uint) (result []T) {
 	defer this.cond.L.Unlock()
 
 	for len(this.buffer) == 0 {
+		// ReleaseGoroutines could have been called before we got here, nobody would wake us up
+		if this.released {
+			return
+		}
 		this.cond.Wait()
 		// this check is used when ReleaseGoroutines is called on waiting goroutine
 		if len(this.buffer) == 0 {
@@ -82,6 +89,7 @@ func (this *FifoBuffer[T]) Length() int {
 
 func (this *FifoBuffer[T]) ReleaseGoroutines() {
 	this.cond.L.Lock()
+	this.released = true
 	this.cond.Broadcast()
 	this.cond.L.Unlock()
 }
